@@ -379,7 +379,7 @@ pub fn plan(prop: &str, tier: &str) -> Option<Plan> {
                 for &hk in &[H_GOOD, H_LOW] {
                     s.push(e2(prop, "u32", hk, "look1+mut+ch0+shape2", &fl, if hk == H_LOW { 5 } else { 6 }, "chk", 900.0));
                 }
-                s.push(e2(prop, "u32", H_CONST, "look1+mut+ch0+shape2", &fl, 5, "chk", 900.0));
+                s.push(e2(prop, "u32", H_CONST, "look1+mut+ch0+shape2", &fl, 5, "chk", 1800.0));
                 s.push(e2(prop, "zst", H_GOOD, "look+mut+ch1+bulk2+shape2", &fl, 1, "chk", 100.0));
                 for st in [0, 2, 3, 8] {
                     s.push(sweep(3_000_000, st, 600.0));
@@ -512,7 +512,7 @@ pub fn plan(prop: &str, tier: &str) -> Option<Plan> {
                     s.push(as_set(e1(prop, "tk", H_LOW, 0, "skey+sshape", &fl, 31, 2, 1, prof, 1200.0)));
                     s.push(as_set(e2(prop, "tk", H_LOW, "skey+sshape2", &fl, 4, prof, 1200.0)));
                     s.push(as_set(e2(prop, "zst", H_GOOD, "skey+sshape2", &fl, 1, prof, 100.0)));
-                    s.push(e1(prop, "big", H_GOOD, 0, "look1+mut+ch1+bulk+shape+iterlite", &fl, 130, 1, 1, prof, 900.0));
+                    s.push(e1(prop, "big", H_GOOD, 0, "look1+mut+ch1+bulk+shape+iterlite", &fl, if prof == "asan" { 64 } else { 130 }, 1, 1, prof, 900.0));
                     s.push(e1(prop, "big", H_LOW, 0, a, &fl, if prof == "asan" { 20 } else { 33 }, 2, 1, prof, 1200.0));
                     s.push(as_set(e1(prop, "big", H_LOW, 0, "skey+sshape+siter", &fl, 64, 1, 1, prof, 900.0)));
                     s.push(e2(prop, "big", H_GOOD, "look1+mut+ch0+shape2+iterlite", &fl, 4, prof, 1200.0));
